@@ -59,8 +59,8 @@ def scenarios(tier, seed):
         norefresh = a in ("wstream", "rstream") and i % 2 == 0
         out.append(scenario("%s-%s-%s-%dp%s" % (b, a, v, nports, "-noref" if norefresh else ""), b, ports, seed * 7 + i, tech=dict(tREFI=2000),
                             ctrl=dict(cmd_buffer_depth=[8, 4, 2][i % 3], with_refresh=not norefresh), max_cycles=600000, drain=60000, sweep_max=40))
-    from . import c03
-    return out + c03.mux_lockstep_scenarios(tier, seed)[:2]
+    from . import c03, c01
+    return out + c03.mux_lockstep_scenarios(tier, seed)[:2] + c01.xbar_lockstep_scenarios(tier, seed)[:2]
 
 
 def models(tier, seed):
@@ -78,6 +78,9 @@ def execute(sc, workdir):
     if sc.get("kind") == "b3-mux":
         from . import c03
         return c03._b3_mux(sc, workdir)
+    if sc.get("kind") == "lockstep-xbar":
+        from . import c01
+        return c01._lockstep_xbar(sc, workdir)
     r = execute_core(sc, workdir, ID, ("rsp",))
     r["nontrivial"] = [[sc["memtype"], sc["clk_khz"]] + sc["name"].split("-")[1:3]]
     r["stats"]["worst_accept_wait_tck"] = 0
